@@ -164,6 +164,51 @@ fn one_map_input(syms: &[u8], hint: Option<usize>, fail_at: Option<usize>, bound
             }
         }
     }
+    // the in-place entry point, into a map that already holds other entries and has room: on success the map must
+    // equal the input (nothing of the old contents survives); after an error it must be a valid map
+    {
+        let mut place: M = M::with_capacity_and_hasher_in(if syms.len() % 2 == 0 { 28 } else { 0 }, PlanBuild::default(), CheckAlloc);
+        for id in [0u8, 1, 7, 9] {
+            place.insert(TKey::make(id, 900 + id as u32), TVal::make(950 + id as u32));
+        }
+        place.remove(&KeyRef(1));
+        let mut src = Src { entries: entries.clone(), hint, fail_at, pos: 0, produced: 0 };
+        let r = env::catch(|| M::deserialize_in_place(&mut src, &mut place));
+        let whatp = || format!("{} in place into a map holding keys 0, 7, 9", what());
+        let r = r.map_err(|m| format!("{}: panicked: {m}", whatp()))?;
+        let d = place.verif_dump();
+        inv::check_structure(&d, inv::Which { lawful_hash: true }, &|i| place.verif_bucket(i).map(|(k, _)| plan_hash(k.id))).map_err(|m| format!("{}: {m}", whatp()))?;
+        if place.iter().count() != place.len() {
+            return Err(format!("{}: len() disagrees with iteration", whatp()));
+        }
+        match r {
+            Ok(()) => {
+                if should_fail {
+                    return Err(format!("{}: returned Ok although the input failed", whatp()));
+                }
+                let mut model: Vec<(u8, u32, u32)> = Vec::new();
+                for &(k, v) in &entries {
+                    let (id, kt, vt) = ((k >> 32) as u8, k as u32, v as u32);
+                    match model.iter_mut().find(|e| e.0 == id) {
+                        Some(e) => e.2 = vt,
+                        None => model.push((id, kt, vt)),
+                    }
+                }
+                model.sort_unstable();
+                let mut got: Vec<(u8, u32, u32)> = place.iter().map(|(k, v)| (k.id, k.tok, v.tok)).collect();
+                got.sort_unstable();
+                if got != model {
+                    return Err(format!("{}: result {:?}, the input is {:?}", whatp(), got, model));
+                }
+            }
+            Err(_) => {
+                if !should_fail {
+                    return Err(format!("{}: returned an error although the input is fine", whatp()));
+                }
+            }
+        }
+        drop(place);
+    }
     end_of_run_checks(&ZERO_BASE).map_err(|m| format!("{}: {m}", what()))
 }
 
